@@ -19,7 +19,10 @@ EXPLANATION = (
     "(R7.5) generation-guarded inventory/trait/aggregate updates increment "
     "in the scope of their data change; (R7.8) of two requests racing to "
     "create one consumer the loser is answered 409 from 1.28 and is never "
-    "told it created the record. If any of these is missing two "
+    "told it created the record; (R7.9) the generation compared with the "
+    "client's is the one the guarded write checks (no server-side retry or "
+    "re-read in between) and a lost race is a 409. If any of these is "
+    "missing two "
     "concurrent claims can both pass the check and jointly over-commit. "
     "Serializability over schedules itself is not decided.")
 ASSUMPTIONS = ["each transaction is atomic and isolated (serializable DBMS), "
@@ -105,3 +108,11 @@ def run(ctx, R):
     n8 = C.reuse_obligations(ctx, R, c06.r62, 'R7.8')
     n8 += C.reuse_obligations(ctx, R, c12.r128, 'R7.8')
     R.count('R7.8', n8, 2)
+    # R7.9: the generation a guarded update compares is the one its write
+    # checks - no server-side retry or re-read between the comparison with
+    # the client's generation and the mutator, and a lost race is answered
+    # 409 (the obligations of R5.2 / R5.3)
+    from psa.rules import c05
+    n9 = C.reuse_obligations(ctx, R, c05.run, 'R7.9',
+                             select=lambda o: o.rule in ('R5.2', 'R5.3'))
+    R.count('R7.9', n9, 20)
